@@ -132,12 +132,12 @@ def gen_spec(seed: int, config: str | None = None) -> dict:
     serial = 0
     sends_by_node = {}
     for i in range(n_w):
-        nodes.append({"name": f"w{i}", "role": "writer", "script": []})
+        nodes.append({"name": f"w{i}", "role": "writer", "script": [], "pathform": rng.choice(["str", "str", "Path", "relative"])})
     both = rng.random() < 0.2
     for i in range(n_r):
         mode = rng.choice(["iter", "iter", "batch", "async"])
         role = "both" if (both and i == 0 and mode != "async") else "reader"
-        nodes.append({"name": f"r{i}", "role": role, "mode": mode, "script": []})
+        nodes.append({"name": f"r{i}", "role": role, "mode": mode, "script": [], "pathform": rng.choice(["str", "str", "Path", "relative"])})
         if mode == "async" and rng.random() < 0.25:
             nodes[-1]["consumers"] = 2
     senders = [n for n in nodes if n["role"] in ("writer", "both")]
@@ -183,12 +183,26 @@ def gen_spec(seed: int, config: str | None = None) -> dict:
                         if rng.random() < 0.8:
                             ops.append({"op": "recv"})
                         ops.append({"op": "resume"})
-                    elif r < 0.7:
+                    elif r < 0.63:
                         ops.append({"op": "recv", "abandon": rng.choice([0, 1, 2])})
+                    elif r < 0.67:
+                        # the consumer fails while handling a packet: the exception is thrown into the generator
+                        ops.append({"op": "recv", "throw_at": rng.choice([0, 1, 2])})
+                    elif r < 0.70:
+                        # the queue object travels (pickled to a worker, copied): the same reader carries on with the copy
+                        ops.append({"op": "fork", "how": rng.choice(["pickle", "copy"])})
                     elif r < 0.85:
                         ops.append({"op": "sleep", "ns": rng.choice([1000, 10**6, 10**8])})
                     else:
                         ops.append({"op": "restart"})
+            if n["role"] == "both" and rng.random() < 0.4:
+                # one of its sends happens from inside its own consumer loop (a reply while iterating)
+                sends = [o for o in n["script"] if o["op"] == "send"]
+                recvs = [o for o in ops if o["op"] == "recv" and "pause" not in o and "throw_at" not in o]
+                if sends and recvs:
+                    sd = sends[-1]
+                    n["script"].remove(sd)
+                    rng.choice(recvs)["reply"] = {"to": sd["to"], "data": sd["data"], "serial": sd["serial"], "after": rng.choice([0, 1])}
             if n["role"] == "both":
                 # interleave own sends and receives
                 merged = []
@@ -231,7 +245,7 @@ def gen_spec(seed: int, config: str | None = None) -> dict:
             faults.append({"kind": "dup_append", "serial": rng.choice(all_sends)[2]})
         if "corrupt" in kinds and all_sends:
             faults.append({"kind": "corrupt", "serial": rng.choice(all_sends)[2], "at": rng.randrange(1 << 16), "xor": rng.choice([1, 2, 0x20, 0x80, 0xFF])})
-    sizes = [len(json.dumps(op["data"])) for n in nodes for op in n["script"] if op["op"] == "send"]
+    sizes = [len(json.dumps(op["data"])) for op in send_ops({"nodes": nodes})]
     big = any(z > 2000 for z in sizes)
     if big and knobs["read_chunk"]:
         knobs["read_chunk"] = max(knobs["read_chunk"], 1024 if max(sizes) < 100_000 else 65536)  # byte-at-a-time reads of a 20 KB record only burn the step budget
@@ -489,6 +503,10 @@ def _to_plain(x):
     return x
 
 
+class ConsumerFailed(Exception):
+    pass
+
+
 class NodeRunner:
     def __init__(self, sim, spec, node, hist, path, writers_done, env):
         self.sim = sim
@@ -505,9 +523,17 @@ class NodeRunner:
 
     # queue object / incarnation
     def new_queue(self):
+        from pathlib import Path
+
         from tatsu.packetz.queue import PacketzQueue
 
-        self.q = PacketzQueue(self.path)
+        form = self.node.get("pathform", "str")
+        path = self.path
+        if form == "Path":
+            path = Path(self.path)
+        elif form == "relative":
+            path = os.path.join(".", os.path.relpath(self.path, os.getcwd()))
+        self.q = PacketzQueue(path)
         self.inc = {"node": self.node["name"], "idx": len([i for i in self.hist.incarnations if i["node"] == self.node["name"]]),
                     "deliveries": [], "final": False, "born": self.hist.tick()}
         self.hist.incarnations.append(self.inc)
@@ -593,6 +619,20 @@ class NodeRunner:
                 for p in gen:
                     self.record(p)
                     got += 1
+                    reply = op.get("reply")
+                    if reply is not None and got > reply["after"] and not op.get("_replied"):
+                        op["_replied"] = True
+                        self.sim.probe("send_from_inside_consumer_loop")
+                        self.do_send({"op": "send", "to": reply["to"], "data": reply["data"], "serial": reply["serial"]})
+                    if op.get("throw_at") is not None and got > op["throw_at"]:
+                        self.sim.probe("exception_thrown_into_generator")
+                        try:
+                            gen.throw(ConsumerFailed("consumer failed while handling a packet"))
+                        except ConsumerFailed:
+                            pass
+                        except StopIteration:
+                            pass
+                        break
                     if abandon is not None and got > abandon:
                         self.sim.probe("generator_abandoned")
                         break
@@ -619,6 +659,10 @@ class NodeRunner:
             raise
         except Exception as e:  # noqa: BLE001
             self.hist.recv_errors.append((name, type(e).__name__, str(e)[:200]))
+        reply = op.get("reply")
+        if reply is not None and not op.get("_replied"):
+            op["_replied"] = True
+            self.do_send({"op": "send", "to": reply["to"], "data": reply["data"], "serial": reply["serial"]})
         self.sim.log("recv-return", name, got)
         return got
 
@@ -708,7 +752,7 @@ class NodeRunner:
         role = node["role"]
         sim = self.sim
         self.new_queue()
-        for op in node["script"]:
+        for op in copy.deepcopy(node["script"]):
             sim.yield_point("op")
             kind = op["op"]
             if kind == "send":
@@ -727,6 +771,12 @@ class NodeRunner:
                 if self.hist.partial_now:
                     sim.probe("receive_started_while_file_cut")
                 self.do_recv({"op": "recv"})
+            elif kind == "fork":
+                import pickle
+
+                self.close_paused()
+                self.q = pickle.loads(pickle.dumps(self.q)) if op["how"] == "pickle" else copy.copy(self.q)
+                sim.probe("queue_object_" + op["how"])
             elif kind == "resume":
                 self.do_resume()
             elif kind == "restart":
@@ -867,6 +917,17 @@ def patched(env: Env, clock: SimClock):
         env.active = False
 
 
+def send_ops(spec):
+    out = []
+    for node in spec["nodes"]:
+        for op in node["script"]:
+            if op["op"] == "send":
+                out.append(op)
+            elif op.get("reply"):
+                out.append(op["reply"])
+    return out
+
+
 def fault_kinds_left(spec):
     ks = sorted({f["kind"] for f in spec["faults"]})
     if spec["clock"]["gran_ns"] > 1:
@@ -924,10 +985,8 @@ def run(spec: dict, decider: Decider, keep_events: bool = False) -> RunResult:
         with patched(env, clock):
             from tatsu.packetz.packet import Packet, pack, unpack
 
-            for node in spec["nodes"]:
-                for op in node["script"]:
-                    if op["op"] != "send":
-                        continue
+            for op in send_ops(spec):
+                if True:
                     p = Packet(to=op["to"], data=copy.deepcopy(op["data"]))
                     try:
                         q = unpack(pack(p))
@@ -980,7 +1039,7 @@ def run(spec: dict, decider: Decider, keep_events: bool = False) -> RunResult:
         if viol.clause != "roundtrip":
             # a payload of a class that pack/unpack is known not to carry (known_findings.json) is still part of this
             # (minimised) spec: what follows from it is attributed to that finding, not reported as something new
-            present = {classify_payload([op["to"], op["data"]]) for n in spec["nodes"] for op in n["script"] if op["op"] == "send"}
+            present = {classify_payload([op["to"], op["data"]]) for op in send_ops(spec)}
             for cls in ("class-key", "style-prefix"):
                 if cls in present and cls not in disc:
                     disc += "/with-" + cls
